@@ -311,6 +311,10 @@ func All() []Scenario {
 		ticker(8*ms, 6*ms, 2, "reset", 3*ms, 2*ms, 1),
 		extreme(),
 		sleepTwice(10*ms, 0), sleepTwice(10*ms, 1),
+		// the smallest jitters (any 0 <= jitter < d is legal), also through Reset
+		ticker(4*ms, 1, 2, "", 0, 0, 0),
+		ticker(4*ms, 500, 2, "reset", 2*ms, 999, 1),
+		ticker(3, 2, 2, "", 0, 0, 0),
 		lazyConsumer(4*ms, 0, 3, 0), lazyConsumer(4*ms, 1*ms, 2, 1),
 		ticker(4*ms, 1*ms, 3, "stop", 0, 0, 0),
 		ticker(4*ms, 3*ms, 2, "stop", 0, 0, 1),
